@@ -173,7 +173,7 @@ pub fn c05_run(opts: &crate::Opts, out: &mut Out) {
     let configs: Vec<(usize, usize, usize, usize, bool)> = if opts.thorough {
         vec![(2, 1, 1, 1, true), (2, 2, 4, 2, false), (4, 1, 2, 3, true), (8, 2, 2, 1, false), (8, 4, 8, 6, false), (16, 1, 1, 4, false), (64, 1, 2, 2, true), (64, 2, 2, 1, false), (1, 2, 2, 5, false), (32, 4, 4, 2, false)]
     } else {
-        vec![(2, 1, 1, 1, true), (4, 2, 4, 3, false), (8, 4, 4, 2, false), (64, 1, 2, 2, true), (1, 2, 2, 6, false)]
+        vec![(2, 1, 1, 1, true), (4, 2, 4, 3, false), (8, 4, 4, 2, false), (64, 1, 2, 2, true), (1, 2, 2, 6, false), (16, 1, 1, 4, false), (2, 2, 2, 5, false)]
     };
     let limit_r = if GROUP == "ristretto" && !opts.thorough { 3 } else { usize::MAX };
     for (ci, (n, m, cap, t, seeded)) in configs.into_iter().enumerate() {
@@ -555,7 +555,26 @@ pub fn c16_run(opts: &crate::Opts, out: &mut Out) {
         }
         let r = std::panic::catch_unwind(|| Proof::from_bytes(&b).is_ok());
         out.oracle("C16:decode-no-panic", r.is_ok(), &format!("{} decode len={}", GROUP, l), &format!("bytes={}", hex(&b)));
+        // the serde form of the same string (length-prefixed), and the bare string handed to the serde decoder
+        let mut framed = (b.len() as u64).to_le_bytes().to_vec();
+        framed.extend_from_slice(&b);
+        for (what, input) in [("framed", &framed), ("bare", &b)] {
+            let r = std::panic::catch_unwind(|| bincode::deserialize::<Proof>(input).is_ok());
+            out.oracle("C16:decode-no-panic", r.is_ok(), &format!("{} serde {} len={}", GROUP, what, l), &format!("bytes={}", hex(input)));
+        }
+        let _ = std::panic::catch_unwind(|| tari_bulletproofs_plus::range_proof::RangeProof::<crate::fm::FP>::extension_degree_from_proof_bytes(&b).is_ok());
         ncalls += 1;
+    }
+    // every length 0..=40 (the decoders index into the prefix), zeros and 0xff
+    for l in 0..=40usize {
+        for fill in [0u8, 0xff, 1] {
+            let b = vec![fill; l];
+            let mut framed = (b.len() as u64).to_le_bytes().to_vec();
+            framed.extend_from_slice(&b);
+            let r = std::panic::catch_unwind(|| (Proof::from_bytes(&b).is_ok(), bincode::deserialize::<Proof>(&framed).is_ok(), bincode::deserialize::<Proof>(&b).is_ok()));
+            out.oracle("C16:decode-no-panic", r.is_ok(), &format!("{} short input len={} fill={}", GROUP, l, fill), "panicked");
+            ncalls += 1;
+        }
     }
     // (2) verification over the cross product proof shape x statement shape x mode
     let round_set: Vec<usize> = if opts.thorough { vec![1, 2, 3, 4, 5, 6, 7, 8, 9, 10, 11, 12, 13, 40, 70, 1 << 12] } else { vec![1, 2, 3, 5, 6, 7, 8, 13, 40, 70, 1 << 10] };
